@@ -164,26 +164,36 @@ func wiringChildMain() {
 	// and non-schema blobs (text, binary, JSON that is not schema, empty)
 	rng := seededRand(seed)
 	s := hw.NewSigner(1)
-	var blobs []sto.Blob
+	var blobs, ordered, free []sto.Blob
 	schema := map[string]bool{}
+	// every dependency is uploaded before its dependents (the owner's public key first)
+	ordered = append(ordered, s.Pub)
 	for i := 0; i < 3; i++ {
 		pn := s.Permanode(fmt.Sprintf("c19-wiring-%d-%d", i, rng.Int63()))
 		cl := s.Claim(hw.Set, pn.Ref, "title", fmt.Sprintf("t%d", i), hw.T(2010+i, i))
 		content := make([]byte, 100+rng.Intn(5000))
 		rng.Read(content)
 		file, chunk := hw.FileOf(fmt.Sprintf("w%d.bin", i), content, hw.T(2012, i))
-		blobs = append(blobs, pn, cl, chunk, file)
+		ordered = append(ordered, pn, cl, chunk, file)
 		schema[pn.Ref.String()], schema[cl.Ref.String()], schema[file.Ref.String()] = true, true, true
 	}
 	for i := 0; i < 6; i++ {
-		blobs = append(blobs, hw.RawBlob(fmt.Sprintf("c19 wiring text %d %d", i, rng.Int63())))
+		free = append(free, hw.RawBlob(fmt.Sprintf("c19 wiring text %d %d", i, rng.Int63())))
 	}
-	blobs = append(blobs, sto.FromBytes([]byte(fmt.Sprintf("{\"camliVersion\": 1, \"camliTypo\": \"x\", \"n\": %d", rng.Int63()))))
-	blobs = append(blobs, sto.FromBytes([]byte{}))
+	free = append(free, sto.FromBytes([]byte(fmt.Sprintf("{\"camliVersion\": 1, \"camliTypo\": \"x\", \"n\": %d", rng.Int63()))))
+	free = append(free, sto.FromBytes([]byte{}))
 	big := make([]byte, 300000)
 	rng.Read(big)
-	blobs = append(blobs, sto.FromBytes(big))
-	rng.Shuffle(len(blobs), func(i, j int) { blobs[i], blobs[j] = blobs[j], blobs[i] })
+	free = append(free, sto.FromBytes(big))
+	for len(ordered)+len(free) > 0 {
+		if len(free) == 0 || (len(ordered) > 0 && rng.Intn(2) == 0) {
+			blobs = append(blobs, ordered[0])
+			ordered = ordered[1:]
+		} else {
+			blobs = append(blobs, free[0])
+			free = free[1:]
+		}
+	}
 
 	root := strings.TrimRight(disc.BlobRoot, "/")
 	var acked []sto.Blob
